@@ -6,16 +6,22 @@ From XV Require Import Lib.Sx Model.Queue.
 Import ListNotations.
 Open Scope Z_scope.
 
-Inductive pkind := KStanza | KRequest | KAnswer.   (* what Send was given *)
+(* what the packet is: Send decides on its Go type (stanza.SMRequest / stanza.SMAnswer, by value
+   or by pointer), SendRaw on the first element of the string ({urn:xmpp:sm:3}r / a) *)
+Inductive pkind := KStanza | KRequest | KAnswer.
 
 Inductive aop :=
 | ASend (k : pkind) (data : str)    (* Client.Send(packet); data = its serialisation *)
-| ASendRaw (data : str)             (* Client.SendRaw(string) *)
-| AAck (h : Z).                     (* <a h='h'/> from the server, routed *)
+| ASendRaw (k : pkind) (data : str) (* Client.SendRaw(string); Connect's initial presence is one *)
+| ARefused (k : pkind) (data : str) (* Send or SendRaw whose write the transport refuses (error to the caller) *)
+| AAck (h : Z).                     (* <a h='h'/> from the server, routed; h is unsigned on the wire and
+                                       clamped to the largest int before SendMissingStz, which is not
+                                       visible here: sequence numbers are unbounded integers *)
 
 Inductive witem := WData (s : str) | WRequest.   (* what goes on the wire *)
 
-(* Send: stanzas are pushed (ack requests and answers are not), then written *)
+(* Send / SendRaw, under the client's send lock: stanzas are pushed (ack requests and answers are
+   not), then written; number and write are one step, so the queue order is the wire order *)
 Definition a_send (st : qstate) (k : pkind) (data : str) : qstate * list witem :=
   match k with
   | KStanza => (q_push st data, [WData data])
@@ -23,8 +29,23 @@ Definition a_send (st : qstate) (k : pkind) (data : str) : qstate * list witem :
   | KAnswer => (st, [WData data])
   end.
 
-(* SendMissingStz(h): drop every entry numbered <= h; if entries remain, write them
-   again in order (they stay queued under their numbers) and ask for a new ack *)
+(* UnAckQueue.DropLast: the tail entry leaves the queue, with its number, when it is the entry
+   of the last Push *)
+Definition q_drop_last (st : qstate) : qstate :=
+  match last_id (fst st) with
+  | Some i => if i =? snd st then (removelast (fst st), snd st - 1) else st
+  | None => st
+  end.
+
+(* a refused write: what was pushed is taken back; nothing reached the wire *)
+Definition a_refused (st : qstate) (k : pkind) (data : str) : qstate * list witem :=
+  match k with
+  | KStanza => (q_drop_last (q_push st data), [])
+  | _ => (st, [])
+  end.
+
+(* SendMissingStz(h), under the same lock: drop every entry numbered <= h; if entries remain,
+   write them again in order (they stay queued under their numbers) and ask for a new ack *)
 Definition a_ack (st : qstate) (h : Z) : qstate * list witem :=
   match fst st with
   | [] => (st, [])
@@ -39,7 +60,8 @@ Definition a_ack (st : qstate) (h : Z) : qstate * list witem :=
 Definition a_step (st : qstate) (o : aop) : qstate * list witem :=
   match o with
   | ASend k d => a_send st k d
-  | ASendRaw d => (q_push st d, [WData d])
+  | ASendRaw k d => a_send st k d
+  | ARefused k d => a_refused st k d
   | AAck h => a_ack st h
   end.
 
@@ -56,10 +78,11 @@ Definition sp_held (s : spec) : list str := skipn (sp_acked s) (sp_sent s).
 
 Definition sp_step (s : spec) (o : aop) : spec * list witem :=
   match o with
-  | ASend KStanza d | ASendRaw d =>
+  | ASend KStanza d | ASendRaw KStanza d =>
       ({| sp_sent := sp_sent s ++ [d]; sp_acked := sp_acked s |}, [WData d])
-  | ASend KRequest _ => (s, [WRequest])
-  | ASend KAnswer d => (s, [WData d])
+  | ASend KRequest _ | ASendRaw KRequest _ => (s, [WRequest])
+  | ASend KAnswer d | ASendRaw KAnswer d => (s, [WData d])
+  | ARefused _ _ => (s, [])   (* not sent on the session: neither held nor counted *)
   | AAck h =>
       (* the h oldest stanzas of the session are delivered; an ack never un-delivers *)
       let a := Nat.max (sp_acked s) (Nat.min (Z.to_nat h) (length (sp_sent s))) in
